@@ -1,0 +1,20 @@
+//go:build verif
+
+// Verification hooks (read-only): compiled only with -tags verif.
+
+package meeklite
+
+import "fmt"
+
+// VerifConstants returns the package constants as the compiler evaluated them.
+func VerifConstants() map[string]string {
+	m := map[string]string{}
+	put := func(k string, v interface{}) { m[k] = fmt.Sprint(v) }
+	put("maxChanBacklog", maxChanBacklog)
+	put("maxPayloadLength", maxPayloadLength)
+	put("initPollInterval", int64(initPollInterval))
+	put("maxPollInterval", int64(maxPollInterval))
+	put("maxRetries", maxRetries)
+	put("retryDelay", int64(retryDelay))
+	return m
+}
